@@ -283,6 +283,10 @@ pub fn spec_for(prop: &str) -> Option<SeqSpec> {
         "C09" => SeqSpec {
             prop: "C09",
             own_tags: &["PANIC"],
+            oracles: Oracles {
+                continue_for_panics: true,
+                ..Oracles::default()
+            },
             rule: "generated: widest history generator (any order/target/slot, arbitrary frees, drains, change_tree naming any tree id incl. beyond the end, any min_free, offline of partly used trees, online) over frame counts 0..4 trees, FreeAll/AllocAll, all classings incl. zero-slot classes and the zeroed policy. Oracle: no call (and no construction) panics. Non-trivial = history reaching at least one risk class (targeted allocation while the slot holds a reservation, zero-slot class configured, change_tree beyond the last tree, zero frames, partly used tree offlined, whole reserved tree freed through other paths then drained); distinct by case hash.",
             nontrivial: |c, o| {
                 c.cfg.frames == 0
